@@ -140,8 +140,9 @@ pub fn run(tier: &str) -> Result<Report, String> {
     let (m, pool, which): (usize, usize, Vec<String>) = if tier == "quick" { (3, 2, ["con2", "asy2", "inp2", "imp3"].iter().map(|s| s.to_string()).collect()) } else { (4, 5, nets.iter().map(|b| b.name.clone()).collect()) };
     // plus a network whose variable names look like the auxiliary variables' names
     let mut nets = nets;
-    nets.push(Arc::new(bind("xtr2", &crate::nets::spec("Ca_extra_cell -> b_extra_1; b_extra_1 -?? Ca_extra_cell; $b_extra_1: Ca_extra_cell"), 0)?));
-    let which: Vec<String> = which.into_iter().chain(["xtr2".to_string()]).collect();
+    let named = name_nets(0)?;
+    let which: Vec<String> = which.into_iter().chain(named.iter().map(|b| b.name.clone())).collect();
+    nets.extend(named);
     for b in nets.iter().filter(|b| which.contains(&b.name)) {
         crate::sem::note_network(&mut rep, b);
         let env = Env::new(b)?;
